@@ -32,7 +32,7 @@ pub enum Op {
     Insert(u16, Arg),
     /// form 0: s..e 1: s..=e 2: ..e 3: ..=e 4: s.. 5: .. 6: (Excl,Incl) 7: (Excl,Excl) 8: (Excl,Unbounded)
     Remove { form: u8, a: u16, b: u16 },
-    /// scaled into 0..=len+3 (beyond len: no-op, as for a list)
+    /// scaled into 0..=len
     Truncate(u16),
     Clear,
     SnapClone,
@@ -216,7 +216,8 @@ fn check<C: Cm>(case: &Case) -> PResult {
                 r
             }
             Op::Truncate(k) => {
-                let k = scale16(*k, len0 + 3);
+                // in-bounds arguments only (0..=len), as the property quantifies
+                let k = scale16(*k, len0);
                 desc = format!("truncate({k}) on length {len0}");
                 model.truncate(k);
                 edits += 1;
